@@ -15,6 +15,8 @@ import itertools
 import random
 import re
 
+import zlib
+
 from .. import core
 
 ATOM = {"s1": "alpha é", "s2": "b & c", "s3": "50% of $x$"}
@@ -24,9 +26,13 @@ class Probe:
     def __init__(self, failing):
         self.failing = set(failing)
 
+    class ProbeError(Exception):
+        pass
+
     def _f(self, s):
         if s in self.failing:
-            raise ValueError("probe: cannot convert " + s)
+            # "a conversion failure" is any exception of the converter, whatever its type
+            raise {"alpha é": ValueError, "b & c": KeyError}.get(s, Probe.ProbeError)("probe: cannot convert " + s)
         return "<" + s + ">"
     unicode_to_latex = _f
     latex_to_text = _f
@@ -191,10 +197,21 @@ def url_signature(text, enclose_urls):
     return None
 
 
-def roundtrip(bib, text, eo):
+def roundtrip(bib, text, eo, history=False):
     m = bib.middlewares
     M = bib.model
     lib = bib.Library([M.Entry("article", "k", [M.Field("title", text)]), M.String("s", text)])
+    if history:
+        # the blocks have been decoded and encoded before (they carry whatever those runs left on them) and were
+        # edited since: the round trip law is about the text they hold now
+        lib.blocks[0].fields[0].value = lib.blocks[1].value = "caf\\'e \\& co"
+        lib = m.LatexDecodingMiddleware(allow_inplace_modification=True).transform(lib)
+        lib = m.LatexEncodingMiddleware(allow_inplace_modification=True).transform(lib)
+        lib = m.LatexDecodingMiddleware(allow_inplace_modification=True).transform(lib)
+        if not isinstance(lib.blocks[0], M.Entry) or not isinstance(lib.blocks[1], M.String):
+            raise core.MachineryError("C18 history prelude failed")
+        lib.blocks[0].fields[0].value = text
+        lib.blocks[1].value = text
     enc = m.LatexEncodingMiddleware(allow_inplace_modification=False, **eo).transform(lib)
     dec = m.LatexDecodingMiddleware(allow_inplace_modification=False).transform(enc)
     b0, b1 = dec.blocks[0], dec.blocks[1]
@@ -205,7 +222,9 @@ def roundtrip(bib, text, eo):
 
 def check_rt(chk, bib, text, eo):
     try:
-        r = roundtrip(bib, text, eo)
+        r = roundtrip(bib, text, eo, history=bool(zlib.crc32(text.encode("utf-8", "replace")) & 1))
+    except core.MachineryError:
+        raise
     except Exception as ex:  # noqa
         chk.mismatch("containment", {"kind": "text", "text": text, "encoder_options": eo}, f"raised {type(ex).__name__}: {ex}", "no exception",
                      kind="text")
@@ -270,6 +289,26 @@ def run(chk: core.Check):
                 if bad:
                     chk.mismatch(bad[0], {"kind": "real", "library": label, "middleware": cls, "options": opts}, bad[1],
                                  "only string field values, name-part strings and @string values change, and stay strings", kind="real")
+    # the real converter failing on its own (a group nested deeper than its recursion allows): contained as well
+    for depth in (40, 400, 2000):
+        for cls in ("LatexDecodingMiddleware", "LatexEncodingMiddleware"):
+            for inplace in (True, False):
+                nreal += 1
+                M = bib.model
+                ent = M.Entry("article", "deep", [M.Field("title", "{" * depth + "x" + "}" * depth), M.Field("note", "ok")])
+                lib = bib.Library([M.ImplicitComment("c"), ent, M.Entry("book", "fine", [M.Field("title", "t")])])
+                try:
+                    out = getattr(m, cls)(allow_inplace_modification=inplace).transform(lib)
+                    b1 = out.blocks[1]
+                    inner = b1.ignore_error_block if isinstance(b1, M.MiddlewareErrorBlock) else b1
+                    ok = (len(out.blocks) == 3 and isinstance(inner, M.Entry) and inner.key == "deep" and isinstance(out.blocks[2], M.Entry)
+                          and out.blocks[2].key == "fine" and out.blocks[2]["title"] == "t" and isinstance(out.blocks[0], M.ImplicitComment))
+                    obs = [type(b).__name__ for b in out.blocks]
+                except Exception as ex:  # noqa
+                    ok, obs = False, f"raised {type(ex).__name__}"
+                if not ok:
+                    chk.mismatch("containment", {"kind": "real", "library": f"title nested {depth} deep", "middleware": cls, "options": {"inplace": inplace}},
+                                 obs, "the entry (converted, or inside a MiddlewareErrorBlock) between its untouched neighbours; no exception", kind="real")
     chk.traces += nreal
     chk.clause("T2.real_converter(scope, types)", nreal)
     chk.exhaustive = True
